@@ -371,6 +371,14 @@ func PackPlain(parts [][]byte, c Carrier) [][]byte {
 
 // Outer applies the node's encryption (primary key) and label.
 func (p *Puppet) Outer(plain []byte) []byte {
+	if p.Conf.SkipLabel {
+		// the node's inbound label check is delegated to an outer layer that has already removed the header: traffic
+		// arrives without one, sealed with the label as associated data
+		if len(p.Conf.Keys) > 0 {
+			return wire.Seal(p.Conf.EncVsn(), p.Conf.Keys[0], p.Nonce(), plain, []byte(p.Conf.Label))
+		}
+		return plain
+	}
 	return p.OuterWith(plain, p.Conf.Keys, p.Conf.EncVsn(), p.Conf.Label)
 }
 
@@ -403,7 +411,7 @@ func (p *Puppet) InjectRaw(from string, b []byte) {
 // StreamFrame builds what a dialer writes for a plaintext stream message:
 // label header + (compress) + (encrypt).
 func (p *Puppet) StreamFrame(plain []byte, compress bool) []byte {
-	return p.StreamFrameWith(plain, compress, p.Conf.Keys, p.Conf.EncVsn(), p.Conf.Label, true)
+	return p.StreamFrameWith(plain, compress, p.Conf.Keys, p.Conf.EncVsn(), p.Conf.Label, !p.Conf.SkipLabel)
 }
 
 func (p *Puppet) StreamFrameWith(plain []byte, compress bool, keys [][]byte, vsn byte, label string, header bool) []byte {
@@ -460,7 +468,7 @@ func (p *Puppet) Dump() (map[string]NodeRec, error) {
 }
 
 func (p *Puppet) DumpWith(keys [][]byte, label string) (map[string]NodeRec, error) {
-	req := p.StreamFrameWith(wire.PushPull(false, nil, nil), false, keys, p.Conf.EncVsn(), label, true)
+	req := p.StreamFrameWith(wire.PushPull(false, nil, nil), false, keys, p.Conf.EncVsn(), label, !p.Conf.SkipLabel)
 	reply, err, c := p.Exchange(p.Obs, req, 5*time.Second)
 	if c != nil {
 		defer c.Close()
